@@ -226,6 +226,17 @@ def mat_entries(t):
     return [deref(t)[0][i][j] for i in range(2) for j in range(3)]
 
 
+def call_merged_matrix(ip, fn, args):
+    """a matrix-valued function with several paths: entries merged into if-then-else terms"""
+    outs = ip.call_fn(fn, args, z3.BoolVal(True))
+    ents = [mat_entries(v) for _, v in outs]
+    merged = ents[-1]
+    for (pc, _), e in list(zip(outs, ents))[-2::-1]:
+        merged = [z3.If(pc, a, b) for a, b in zip(e, merged)]
+    one, zero = ip.T.const(1), ip.T.const(0)
+    return [[[merged[0], merged[1], merged[2]], [merged[3], merged[4], merged[5]], [zero, zero, one]]]
+
+
 def call1(ip, fn, args):
     outs = ip.call_fn(fn, args, z3.BoolVal(True))
     if len(outs) != 1:
@@ -394,6 +405,139 @@ def o_skew(mir, tier, seed):
         bad.append(z3.And(pc, z3.Or(sp[0] != p[0] + tx * (p[1] - o[1]), sp[1] != p[1] + ty * (p[0] - o[0]))))
     st, info, model = check_unsat('affine_skew_real', assumptions + [z3.Or(bad)])
     return dict(theory='Real; tan(to_radians(.)) = fresh symbols', functions=['AffineTransform::skew', 'apply'], paths=len(outs), status=st, info=info, model=None, replay=('skew_f64', ''))
+
+
+# ---- C13 trait forms: which matrix, about which origin, reaches affine_transform(_mut)
+
+TRAIT_EXTRA = {
+    r'<G as rotate::Rotate<T>>::(rotate_around_point(?:_mut)?)': ('geo', r'rotate::<impl at [^>]*>::%s'),
+    r'<G as scale::Scale<T>>::(scale_xy(?:_mut)?)': ('geo', r'scale::<impl at [^>]*>::%s'),
+    r'<G as scale::Scale<T>>::(scale_around_point(?:_mut)?)(?:::<.*>)?': ('geo', r'scale::<impl at [^>]*>::%s'),
+    r'<G as skew::Skew<T>>::(skew_xy(?:_mut)?)': ('geo', r'skew::<impl at [^>]*>::%s'),
+    r'<G as skew::Skew<T>>::(skew_around_point(?:_mut)?)(?:::<.*>)?': ('geo', r'skew::<impl at [^>]*>::%s'),
+}
+
+
+def trait_form(mir, module, method, nargs, origin_kind, expected_ctor):
+    """Runs `<G as Trait>::method` with G opaque.  origin_kind: 'center' | 'centroid' | 'given' | None.
+    expected_ctor(ip, args, origin) -> expected AffineTransform value.  Returns (bad formulas, assumptions, n_paths)."""
+    T = RealTheory()
+    assumptions = []
+    uf_trig, _, _ = trig_uf(T, assumptions)
+    records = []
+    has_origin = z3.Bool('geometry_has_coordinates')
+    rect = [coord(T, 'bbox_min'), coord(T, 'bbox_max')]
+    cen = [coord(T, 'centroid')]
+
+    def bounding_rect(ip, d):
+        return ('fork', [(has_origin, Enum('Some', [rect])), (z3.Not(has_origin), Enum('None'))])
+
+    def centroid(ip, d):
+        return ('fork', [(has_origin, Enum('Some', [cen])), (z3.Not(has_origin), Enum('None'))])
+
+    def ident(ip, d):
+        return d[0]
+
+    def record(ip, d, pc):
+        records.append((pc, mat_entries(d[1])))
+        return 'transformed-geometry'
+    record.wants_pc = True
+
+    def clone(ip, d):
+        return 'clone-of-self'
+    uf = dict(uf_trig)
+    uf.update({
+        '<G as bounding_rect::BoundingRect<T>>::bounding_rect': bounding_rect,
+        '<G as centroid::Centroid>::centroid': centroid,
+        're:<I[RP] as Into<Option<geo_types::(Rect|Point)<T>>>>::into': ident,
+        're:<G as affine_ops::AffineOps<T>>::affine_transform(_mut)?': record,
+        '<G as Clone>::clone': clone,
+        're:<T as num_traits::Float>::(to_radians|sin_cos|tan|abs)': None,
+    })
+    # the trig helpers are registered under U in the constructors and under T nowhere else
+    del uf['re:<T as num_traits::Float>::(to_radians|sin_cos|tan|abs)']
+    extra = dict(EXTRA)
+    extra[r'geo_types::Rect::<\w+>::center'] = ('geo_types', r'rect::<impl at [^>]*>::center')
+    extra[r'geo_types::Point::<\w+>::x_y'] = ('geo_types', r'geometry::point::<impl at [^>]*>::x_y')
+    ip = Interp(mir, T, extra, uf)
+    # nested trait calls are inlined from the same blanket impl
+    orig_resolve = ip.resolve
+
+    def resolve(callee, argv, pc, depth):
+        for pat, (crate, fpat) in TRAIT_EXTRA.items():
+            m = re.fullmatch(pat, callee)
+            if m:
+                ip.calls.append(callee)
+                return ip.call_fn(mir.find(crate, fpat % m.group(1)), argv, pc, depth + 1)
+        return orig_resolve(callee, argv, pc, depth)
+    ip.resolve = resolve
+    fn = mir.find('geo', r'%s::<impl at [^>]*>::%s' % (module, method))
+    args = [T.var('arg%d' % i) for i in range(nargs)]
+    given = coord(T, 'given_origin')
+    g = ['opaque-geometry']
+    call_args = [Ref(lambda: g, lambda v: None)] + args
+    if origin_kind == 'given':
+        call_args.append([given] if module == 'rotate' else given)   # Rotate takes a Point, the others a Coord
+    outs = ip.call_fn(fn, call_args, z3.BoolVal(True))
+    # expected origin
+    if origin_kind == 'center':
+        two = T.const(2)
+        origin = [(rect[0][0] + rect[1][0]) / two, (rect[0][1] + rect[1][1]) / two]
+    elif origin_kind == 'centroid':
+        origin = cen[0]
+    elif origin_kind == 'given':
+        origin = given
+    else:
+        origin = None
+    ip2 = Interp(mir, T, extra, uf)
+    want = mat_entries(expected_ctor(ip2, args, origin))
+    bad = [z3.And(pc, z3.Or([a != b for a, b in zip(m, want)])) for pc, m in records]
+    called = z3.Or([pc for pc, _ in records]) if records else z3.BoolVal(False)
+    if origin_kind in ('center', 'centroid'):
+        bad.append(z3.And(has_origin, z3.Not(called)))
+        bad.append(z3.And(z3.Not(has_origin), called))
+    else:
+        bad.append(z3.Not(called))
+    # at most one transform per path: records' path conditions must be pairwise exclusive
+    for i in range(len(records)):
+        for j in range(i + 1, len(records)):
+            bad.append(z3.And(records[i][0], records[j][0]))
+    return bad, assumptions, len(outs), ip.calls
+
+
+def make_trait_obligation(pid, module, method, nargs, origin_kind, ctor_name, doc):
+    name = 'trait_%s_%s' % (module, method)
+
+    def ctor(ip, args, origin):
+        f = ip.mir.find('geo', AFF + ctor_name)
+        if ctor_name == 'translate':
+            return call1(ip, f, [args[0], args[1]])
+        if ctor_name == 'rotate':
+            return call1(ip, f, [args[0], origin])
+        a = args + [args[-1]] if nargs == 1 else args      # scale(f) = scale_xy(f,f); skew(d) = skew_xy(d,d)
+        if ctor_name == 'skew':
+            return call_merged_matrix(ip, f, [a[0], a[1], origin])
+        return call1(ip, f, [a[0], a[1], origin])
+
+    @obligation(pid, name, doc)
+    def o(mir, tier, seed, module=module, method=method):
+        bad, assumptions, npaths, calls = trait_form(mir, module, method, nargs, origin_kind, ctor)
+        st, info, model = check_unsat(name, assumptions + [z3.Or(bad)])
+        return dict(theory='Real; geometry, bounding_rect(), centroid() and affine_transform() opaque', functions=['%s::%s' % (module, method)], paths=npaths, status=st, info=info, model=None, replay=('trait_forms', ''))
+    return o
+
+
+for _mut in ('', '_mut'):
+    make_trait_obligation('C13', 'translate', 'translate' + _mut, 2, None, 'translate', 'translate%s(dx,dy) applies exactly AffineTransform::translate(dx,dy) through affine_transform%s, once' % (_mut, _mut))
+    make_trait_obligation('C13', 'scale', 'scale' + _mut, 1, 'center', 'scale', 'scale%s(f) applies AffineTransform::scale(f,f, centre of the bounding rectangle); nothing is applied to a geometry without coordinates' % _mut)
+    make_trait_obligation('C13', 'scale', 'scale_xy' + _mut, 2, 'center', 'scale', 'scale_xy%s(fx,fy) applies AffineTransform::scale(fx,fy, centre of the bounding rectangle)' % _mut)
+    make_trait_obligation('C13', 'scale', 'scale_around_point' + _mut, 2, 'given', 'scale', 'scale_around_point%s(fx,fy,o) applies AffineTransform::scale(fx,fy,o)' % _mut)
+    make_trait_obligation('C13', 'rotate', 'rotate_around_center' + _mut, 1, 'center', 'rotate', 'rotate_around_center%s(deg) applies AffineTransform::rotate(deg, centre of the bounding rectangle)' % _mut)
+    make_trait_obligation('C13', 'rotate', 'rotate_around_centroid' + _mut, 1, 'centroid', 'rotate', 'rotate_around_centroid%s(deg) applies AffineTransform::rotate(deg, centroid)' % _mut)
+    make_trait_obligation('C13', 'rotate', 'rotate_around_point' + _mut, 1, 'given', 'rotate', 'rotate_around_point%s(deg,p) applies AffineTransform::rotate(deg, p)' % _mut)
+    make_trait_obligation('C13', 'skew', 'skew' + _mut, 1, 'center', 'skew', 'skew%s(d) applies AffineTransform::skew(d,d, centre of the bounding rectangle)' % _mut)
+    make_trait_obligation('C13', 'skew', 'skew_xy' + _mut, 2, 'center', 'skew', 'skew_xy%s(xs,ys) applies AffineTransform::skew(xs,ys, centre of the bounding rectangle)' % _mut)
+    make_trait_obligation('C13', 'skew', 'skew_around_point' + _mut, 2, 'given', 'skew', 'skew_around_point%s(xs,ys,o) applies AffineTransform::skew(xs,ys,o)' % _mut)
 
 
 # ------------------------------------------------------------------------------- models & replay
